@@ -142,6 +142,8 @@ static void probe(void *vs)
       else { while (n < s->n + 2 && SPIF_ITERATOR_HAS_NEXT(it)) seq[n++] = SPIF_ITERATOR_NEXT(it);
           check_sequence(s, seq, n, "iterator", shape);
           if (n == s->n && SPIF_ITERATOR_NEXT(it)) FAIL(site("iterator"), "model:not-exhausted", shape, "next returned an element after exhaustion");
+          if (n == s->n && SPIF_ITERATOR_HAS_NEXT(it)) FAIL(site("iterator"), "model:not-exhausted", shape, "has_next is TRUE again after a refused next on the exhausted iterator");
+          if (n == s->n && SPIF_ITERATOR_NEXT(it)) FAIL(site("iterator"), "model:not-exhausted", shape, "a second next after exhaustion returned an element");
           SPIF_ITERATOR_DEL(it); } }
     /* a copy of an iterator taken after k steps yields exactly the remaining n-k elements */
     for (int k = 0; k <= s->n; k++) {
@@ -281,10 +283,35 @@ static void mx_case(uint64_t idx, void *ctx)
     mc_nontrivial();
     mc_outcome(idx);
 }
+/* ---- a very long vector (400000 elements, built in the order that is cheap for the class), then one insert above the maximum and one in the middle,
+ * a find of the last element and a copy: anything that uses stack in proportion to the position shows here; run in the unoptimised plain build */
+static void huge_desc(uint64_t idx, void *ctx, char *b, size_t n) { (void) ctx; snprintf(b, n, "%s vector of 400000 elements: insert above the maximum and in the middle, find the last, dup, count, delete both", CN[1 + idx % 2]); }
+static void huge_case(uint64_t idx, void *ctx)
+{
+    const int n = 400000; (void) ctx; CLS = 1 + (int) (idx % 2);           /* the array class inserts in linear time and is covered up to 4097 elements */
+    const char *shape = "400000 elements"; mc_set_shape(shape);
+    spif_vector_t v = new_vec(); char t[16];
+    for (int i = n - 1; i >= 0; i--) { snprintf(t, sizeof t, "e%06d", 2 * i); SPIF_VECTOR_INSERT(v, S_(t)); }       /* descending: every insert goes to the front */
+    if (!SPIF_VECTOR_INSERT(v, S_("e999999")) || !SPIF_VECTOR_INSERT(v, S_("e400001"))) FAIL(site("insert"), "model:return", shape, "insert returned FALSE");
+    if ((int) SPIF_VECTOR_COUNT(v) != n + 2) FAIL(site("count"), "model:return", shape, "count=%d after %d inserts", (int) SPIF_VECTOR_COUNT(v), n + 2);
+    { spif_obj_t p = S_("e999999"); spif_obj_t f = SPIF_VECTOR_FIND(v, p); if (!f || !is_str(f, "e999999")) FAIL(site("find"), "model:return", shape, "find of the greatest element failed"); SPIF_OBJ_DEL(p); }
+    { spif_obj_t p = S_("e400001"); spif_obj_t f = SPIF_VECTOR_FIND(v, p); if (!f || !is_str(f, "e400001")) FAIL(site("find"), "model:return", shape, "find of the middle element failed"); SPIF_OBJ_DEL(p); }
+    spif_vector_t d = (spif_vector_t) SPIF_VECTOR_DUP(v);
+    if (!d) FAIL(site("dup"), "model:return", shape, "dup returned NULL");
+    else { if ((int) SPIF_VECTOR_COUNT(d) != n + 2) FAIL(site("dup"), "model:count", shape, "the copy counts %d", (int) SPIF_VECTOR_COUNT(d));
+        spif_iterator_t it = SPIF_VECTOR_ITERATOR(d); int k = 0; const char *prev = ""; int sorted = 1;
+        while (it && k <= n + 2 && SPIF_ITERATOR_HAS_NEXT(it)) { spif_obj_t g = SPIF_ITERATOR_NEXT(it); const char *gs = g ? (char *) SPIF_STR(g)->s : ""; if (strcmp(prev, gs) > 0) sorted = 0; prev = gs; k++; }
+        if (it) SPIF_ITERATOR_DEL(it);
+        if (k != n + 2 || !sorted) FAIL(site("iterator"), "model:order", shape, "the copy iterates %d elements, %s", k, sorted ? "in order" : "not in ascending order");
+        SPIF_VECTOR_DEL(d); }
+    SPIF_VECTOR_DEL(v);
+    mc_nontrivial();
+}
 int main(int argc, char **argv)
 {
     mc_init("C04", argc, argv);
     libast_debug_level = (unsigned) mc_dlevel();        /* --dlevel=N: the whole run at runtime debug level N (default 0) */
+    if (mc_arg("only", NULL) && !strcmp(mc_arg("only", ""), "huge")) { mc_e2_level("huge", 400000, 2, huge_case, huge_desc, NULL); return mc_finish(); }
     NV = (int) mc_arg_int("values", mc_thorough() ? 4 : 3);
     MULT = (int) mc_arg_int("mult", mc_thorough() ? 3 : 2);
     S = (int) mc_arg_int("S", mc_thorough() ? 7 : 4);
